@@ -104,11 +104,18 @@ Fixpoint world_at (n : nat) (w : world) (h : list (op * obs)) : world :=
   | S _, [] => w
   end.
 
+From Dawn Require Import Build.CleanCheck.
+(** after the marker 777777: for every history that does not satisfy the hypotheses of C01's incremental_eq_clean
+    ([hist_okb]), its index and the reasons ([hist_why]), closed by 999999 *)
 Definition check_all (hs : list (N * list (op * obs))) : list N :=
   flat_map (fun h => match check_history 0 init_world (snd h) with
                      | [] => []
                      | r => fst h :: r ++ [999999]
-                     end) hs.
+                     end) hs ++
+  777777 :: flat_map (fun h => match dedup (hist_why (map fst (snd h))) with
+                               | [] => []
+                               | r => fst h :: r ++ [999999]
+                               end) hs.
 
 (** lineWriter cases: two write+flush rounds through one writer *)
 From Dawn Require Import Build.LineWriter.
